@@ -1,4 +1,5 @@
 import Srtla.Lemmas.ReloadBasic
+import Srtla.Lemmas.ReloadExact
 import Srtla.Lemmas.ForwardStep
 import Srtla.Lemmas.RunLevelRelay
 import Srtla.Lemmas.TrackerTie
@@ -12,10 +13,21 @@ per needed address whose `connect_uplink` attempt succeeded (`outs`: the drawn c
 event).  Statements here (scalar-generic, core Lean only):
 
 * frame / exact removal / exact addition: `reload_frame`, `reload_removed`, `reload_added`, `reload_untouched`;
+* the EXACT link list (both directions, `Lemmas/ReloadExact.lean`): `neededAddrs_exact` (membership `↔`, each
+  once, first-occurrence order, and these facts determine the list — a wrong `dedupSeen` breaks it),
+  `reload_exact` (post-state = retained filter ++ closed form of the created links), `mem_reload_iff`,
+  `reload_adds` (every desired address no link carried is attempted exactly once; attempt `k` pairs
+  `neededAddrs[k]` with `outs[k]`; a success yields exactly `newUplink id a now`, a failure nothing);
 * C11 `C11_anchor_forgotten_iff_removed`; C05 `C05_reload_forgets_removed`, `C05_tracker_names_only_links_run`;
 * invariants over runs WITH reloads: `Inv_step_reload`, `Inv_run_reload` (distinct ids, queues < 32; hypothesis:
-  the drawn ids are new), `LinkInv_run_reload`, `IoOk_step` / `IoOk_run` (the I/O map follows);
-* C01 `C01_reload_accounting` (the new discard cause), C04 `C04_reload_no_new_eligible`, C09 `C09_relay_run_reload`.
+  the drawn ids are new), `LinkInv_run_reload`, `IoOk_step_reload`, `IoOk_step` (every event), `IoOk_run` (the I/O
+  map follows);
+* C01 `C01_reload_accounting` (the new discard cause), C04 `C04_reload_no_new_eligible`, C09 `C09_relay_run_reload`,
+  `C09_removed_id_dropped`.
+
+Non-vacuity: the `decide`-checked examples use ONE concrete state `exS` (two links MODIFIED away from the
+constructor: live, a datagram queued, a packet in flight and logged, a non-default window; one fresh link) and ONE
+reload `exReload` that removes AND adds in the same event (a duplicate desired address, a failed attempt).
 -/
 namespace Srtla.Props.SysReload
 open Srtla Srtla.Gen Srtla.Conn Srtla.Link Srtla.Sys
@@ -24,6 +36,64 @@ variable {F : Type} [Scalar F]
 
 /-- The scalar instance of the `decide`-checked examples (fixed-point integers; nothing here computes a float). -/
 local instance : Scalar Int := Select.fixScalar
+
+/-! ## 0. The concrete state of the non-vacuity examples -/
+
+/-- An SRT data packet (sequence number 41), 16 bytes. -/
+def exData : Sys.Bytes := [0, 0, 0, 41, 0, 0, 0, 0, 0, 0, 0, 0, 1, 2, 3, 4]
+
+/-- A `newUplink` record MODIFIED: live and connected, one datagram queued, one packet in flight and logged, a
+non-default window, a receive stamp. -/
+def exBusy (id addr : Nat) : FLink Int :=
+  let l : FLink Int := FLink.newUplink id addr 0
+  { l with core := { l.core with connected := true, phase := .live, window := 25000, inFlight := 1,
+                                  log := [(40, 4900)], lastReceived := some 4000 },
+           queue := [(exData, some 41, 4950)] }
+
+/-- Links `1@1` and `2@2` busy, `3@3` fresh and registering; client known; every link has its I/O half; the
+selector's anchor names link 2 (index 1); the tracker attributes sequence number 41 to link 2. -/
+def exS : Sys Int :=
+  { links := [exBusy 1 1, exBusy 2 2, FLink.newUplink 3 3 0], reg := Reg.Reg.new [] [], clientKnown := true,
+    io := [1, 2, 3], lastSelected := some 1, trk := Tracker.empty.insert 41 2 4950 }
+
+/-- The example reload at clock 9: address 2 is no longer desired (link 2 is REMOVED with its queued datagram);
+addresses 4 (listed twice), 5 and 6 are new: needed = `[4, 5, 6]`, the attempt for 5 fails, 4 and 6 draw the conn
+ids 7 and 8 (links ADDED in the same event). -/
+def exReload : Ev := .reload 9 [3, 1, 4, 4, 5, 6] [some 7, none, some 8]
+
+/-- What the examples read off a link. -/
+def exView (l : FLink Int) : (Nat × Nat × Nat × Nat) × (Int × Bool × Bool) :=
+  ((l.core.connId, l.addr, l.queue.length, l.core.log.length), (l.core.window, l.core.connected, l.schedulable))
+
+theorem exS_inv : Inv exS := ⟨by decide, by decide⟩
+
+theorem exBusy_linkInv (id addr : Nat) : SysInv.LinkInv (exBusy id addr) := by
+  refine ⟨⟨?_, ?_, ?_⟩, ?_, ?_, ?_, ?_⟩
+  · show ([40] : List Int).Nodup
+    decide
+  · show ∀ s ∈ ([40] : List Int), Conn.I32_MIN < s
+    decide
+  · show (1 : Int) = (([40] : List Int).length : Int)
+    decide
+  · show (1000 : Int) ≤ 25000
+    decide
+  · show (25000 : Int) ≤ 60000
+    decide
+  · show (0 : Int) ≤ 1
+    decide
+  intro it hit n hn
+  have : it = (exData, some 41, 4950) := by simpa [exBusy] using hit
+  subst this
+  cases hn
+  decide
+
+theorem exS_linkInv : SysInv.All SysInv.LinkInv exS.links := by
+  intro l hl
+  have : l = exBusy 1 1 ∨ l = exBusy 2 2 ∨ l = FLink.newUplink 3 3 0 := by simpa [exS] using hl
+  rcases this with rfl | rfl | rfl
+  · exact exBusy_linkInv 1 1
+  · exact exBusy_linkInv 2 2
+  · exact SysInv.linkInv_newUplink 3 3 0
 
 /-! ## 1. Frame, exact removal, exact addition -/
 
@@ -45,6 +115,20 @@ example :
     ((step ({ links := [FLink.newUplink 1 1 0, FLink.newUplink 2 2 0, FLink.newUplink 3 3 0],
               reg := Reg.Reg.new [] [] } : Sys Int) (.reload 9 [3, 1, 4] [some 7])).1.links.map
         fun l => (l.core.connId, l.addr)) = [(1, 1), (3, 3), (7, 4)] := by decide
+
+-- non-vacuity, removal AND addition in one event with a NON-PRISTINE retained record: link 1 keeps its queued
+-- datagram, its logged packet, its window 25000, its flags; link 2 is gone; 3 stays; 7@4 and 8@6 are appended with
+-- the constructor's values (address 4 attempted once although listed twice, the failed attempt for 5 adds nothing)
+example :
+    exS.links.map exView =
+      [((1, 1, 1, 1), (25000, true, true)), ((2, 2, 1, 1), (25000, true, true)), ((3, 3, 0, 0), (20000, false, false))] ∧
+    (step exS exReload).1.links.map exView =
+      [((1, 1, 1, 1), (25000, true, true)), ((3, 3, 0, 0), (20000, false, false)),
+       ((7, 4, 0, 0), (20000, false, false)), ((8, 6, 0, 0), (20000, false, false))] ∧
+    (step exS exReload).1.links[0]?.map (·.queue) = some [(exData, some 41, 4950)] ∧
+    (step exS exReload).1.links[0]?.map (·.core.log) = some [(40, 4900)] ∧
+    neededAddrs exS.links [3, 1, 4, 4, 5, 6] = [4, 5, 6] := by
+  refine ⟨?_, ?_, ?_, ?_, ?_⟩ <;> decide
 
 omit [Scalar F] in
 /-- With distinct conn ids a link is determined by its conn id. -/
@@ -81,29 +165,105 @@ theorem reload_removed (s : Sys F) (now : Nat) (addrs : List Nat) (outs : List (
       rw [this] at heq
       rw [heq]; exact List.mem_map.2 ⟨l, hl, rfl⟩)
 
-/-- `new_ips_needed`: exactly the desired addresses that no link carried BEFORE the call, each once. -/
+-- non-vacuity of `reload_removed`: its hypotheses hold of `exS` / `exReload` (distinct ids, the drawn ids 7 and 8
+-- are new), link 2 is a link of the pre-state whose address is not desired, and no link of the post-state carries
+-- conn id 2
+example :
+    (ids exS.links).Nodup ∧ (∀ i ∈ [7, 8], i ∉ ids exS.links) ∧
+    exS.links[1]?.map (fun l => (l.core.connId, l.addr)) = some (2, 2) ∧ [3, 1, 4, 4, 5, 6].contains 2 = false ∧
+    ids (step exS exReload).1.links = [1, 3, 7, 8] := by decide
+
+omit [Scalar F] in
+/-- **`new_ips_needed`, exactly**: its members are EXACTLY (`↔`) the desired addresses that no link carried BEFORE
+the call; each occurs once; it is a sublist of the desired list, in the order of the FIRST occurrences (the
+positions `addrs.idxOf a` increase strictly); and these facts determine the list: any list with these members in
+this order IS `neededAddrs`.  (With `dedupSeen := fun _ _ => []` the `↔` fails, with the identity `Nodup` fails,
+with last occurrences the order fails: `Lemmas/ReloadExact.lean`.) -/
+theorem neededAddrs_exact (ls : List (FLink F)) (addrs : List Nat) :
+    (∀ a, a ∈ neededAddrs ls addrs ↔ a ∈ addrs ∧ ∀ l ∈ ls, l.addr ≠ a) ∧
+    (neededAddrs ls addrs).Nodup ∧ (neededAddrs ls addrs).Sublist addrs ∧
+    ((neededAddrs ls addrs).map fun a => addrs.idxOf a).Pairwise (· < ·) ∧
+    ∀ r : List Nat, (∀ a, a ∈ r ↔ a ∈ addrs ∧ ∀ l ∈ ls, l.addr ≠ a) →
+      (r.map fun a => addrs.idxOf a).Pairwise (· < ·) → r = neededAddrs ls addrs :=
+  ⟨mem_neededAddrs_iff ls addrs, neededAddrs_nodup ls addrs, neededAddrs_sublist ls addrs,
+   neededAddrs_firstOcc ls addrs, neededAddrs_unique ls addrs⟩
+
+omit [Scalar F] in
+/-- The soundness half of `neededAddrs_exact` (kept under its old name). -/
 theorem mem_neededAddrs (ls : List (FLink F)) (addrs : List Nat) (a : Nat) :
-    a ∈ neededAddrs ls addrs → a ∈ addrs ∧ ∀ l ∈ ls, l.addr ≠ a := by
-  intro h
-  unfold neededAddrs at h
-  obtain ⟨h1, h2⟩ := List.mem_filter.1 h
-  have hd : ∀ (seen xs : List Nat), a ∈ dedupSeen seen xs → a ∈ xs := by
-    intro seen xs
-    induction xs generalizing seen with
-    | nil => intro h; simp [dedupSeen] at h
-    | cons x xs ih =>
-      intro h
-      unfold dedupSeen at h
-      split at h
-      · exact List.mem_cons_of_mem _ (ih _ h)
-      · rcases List.mem_cons.1 h with rfl | h
-        · exact List.mem_cons_self
-        · exact List.mem_cons_of_mem _ (ih _ h)
-  refine ⟨hd _ _ h1, fun l hl hla => ?_⟩
-  have : (ls.map (·.addr)).contains a = true := by
-    rw [List.contains_eq_mem, decide_eq_true_iff]
-    exact List.mem_map.2 ⟨l, hl, hla⟩
-  rw [this] at h2; cases h2
+    a ∈ neededAddrs ls addrs → a ∈ addrs ∧ ∀ l ∈ ls, l.addr ≠ a :=
+  (mem_neededAddrs_iff ls addrs a).1
+
+-- non-vacuity: duplicates, carried addresses, order of first occurrences (5 is first seen before 4)
+example :
+    neededAddrs ([FLink.newUplink 1 1 0, FLink.newUplink 2 2 0] : List (FLink Int)) [5, 2, 4, 5, 1, 4, 6, 5] = [5, 4, 6] ∧
+    neededAddrs ([] : List (FLink Int)) [2, 2, 1, 2] = [2, 1] ∧
+    neededAddrs ([FLink.newUplink 1 1 0] : List (FLink Int)) [1, 1] = [] := by decide
+
+/-- **The link list after a reload, exactly**: the links whose address is still desired — the `filter`, so every
+one of them with its whole record, its multiplicity and in the old order — followed by the created links in
+closed form: attempt `k` pairs the `k`-th needed address with outcome `k`; a success `some id` yields exactly
+`newUplink id addr now`, a failure or a missing outcome yields nothing. -/
+theorem reload_exact (s : Sys F) (now : Nat) (addrs : List Nat) (outs : List (Option Nat)) :
+    (step s (.reload now addrs outs)).1.links =
+      s.links.filter (fun l => addrs.contains l.addr) ++
+      ((neededAddrs s.links addrs).zip outs).filterMap fun p =>
+        p.2.map fun id => (FLink.newUplink id p.1 now : FLink F) := by
+  rw [reload_links, createConnections_eq]; rfl
+
+/-- **Membership through a reload, both directions**, the created links by attempt number. -/
+theorem mem_reload_iff (s : Sys F) (now : Nat) (addrs : List Nat) (outs : List (Option Nat)) (l : FLink F) :
+    l ∈ (step s (.reload now addrs outs)).1.links ↔
+      (l ∈ s.links ∧ addrs.contains l.addr = true) ∨
+      ∃ (k a id : Nat), (neededAddrs s.links addrs)[k]? = some a ∧ outs[k]? = some (some id) ∧
+        l = FLink.newUplink id a now := by
+  rw [reload_links, List.mem_append, mem_retained, mem_createConnections_iff]
+
+/-- **Exact addition, the completeness half**: a desired address `a` that no link carried is attempted EXACTLY
+ONCE — it sits at exactly one position `k` of `neededAddrs` —, the attempt's outcome is `outs[k]`, and
+* if it is the success `some id`, the post-state has the link `newUplink id a now`, and that is the ONLY link of
+  the post-state with address `a`;
+* if it is a failure (or there is no outcome), no link of the post-state has address `a`. -/
+theorem reload_adds (s : Sys F) (now : Nat) (addrs : List Nat) (outs : List (Option Nat)) (a : Nat)
+    (ha : a ∈ addrs) (hn : ∀ l ∈ s.links, l.addr ≠ a) :
+    ∃ k : Nat, (neededAddrs s.links addrs)[k]? = some a ∧
+      (∀ k' : Nat, (neededAddrs s.links addrs)[k']? = some a → k' = k) ∧
+      (∀ id, outs[k]? = some (some id) →
+        (FLink.newUplink id a now : FLink F) ∈ (step s (.reload now addrs outs)).1.links ∧
+        ∀ l ∈ (step s (.reload now addrs outs)).1.links, l.addr = a → l = FLink.newUplink id a now) ∧
+      (outs[k]?.join = none → ∀ l ∈ (step s (.reload now addrs outs)).1.links, l.addr ≠ a) := by
+  obtain ⟨k, hk⟩ := List.getElem?_of_mem ((mem_neededAddrs_iff s.links addrs a).2 ⟨ha, hn⟩)
+  have huniq : ∀ k', (neededAddrs s.links addrs)[k']? = some a → k' = k := by
+    intro k' hk'
+    have hlt := (List.getElem?_eq_some_iff.1 hk').1
+    exact (List.getElem?_inj hlt (neededAddrs_nodup s.links addrs)).1 (hk'.trans hk.symm)
+  -- a link of the post-state with address `a` was created by attempt `k`
+  have hof : ∀ l ∈ (step s (.reload now addrs outs)).1.links, l.addr = a →
+      ∃ id, outs[k]? = some (some id) ∧ l = FLink.newUplink id a now := by
+    intro l hl hla
+    rcases (mem_reload_iff s now addrs outs l).1 hl with ⟨h1, -⟩ | ⟨k', a', id, h1, h2, rfl⟩
+    · exact absurd hla (hn l h1)
+    · have : a' = a := hla
+      subst this
+      rw [huniq k' h1] at h2
+      exact ⟨id, h2, rfl⟩
+  refine ⟨k, hk, huniq, fun id hid => ⟨?_, fun l hl hla => ?_⟩, fun hnone l hl hla => ?_⟩
+  · exact (mem_reload_iff s now addrs outs _).2 (.inr ⟨k, a, id, hk, hid, rfl⟩)
+  · obtain ⟨id', h1, rfl⟩ := hof l hl hla
+    rw [hid] at h1
+    cases h1; rfl
+  · obtain ⟨id', h1, -⟩ := hof l hl hla
+    rw [h1] at hnone
+    cases hnone
+
+-- non-vacuity of `reload_adds` / `reload_exact` on `exS` / `exReload`: address 4 (desired twice, not carried) sits
+-- at position 0 of the needed list only, its outcome is `some 7`, the post-state has exactly one link with address 4
+-- and it is `7@4`; address 5 sits at position 1, its outcome is a failure, no link of the post-state has address 5
+example :
+    (neededAddrs exS.links [3, 1, 4, 4, 5, 6]).idxOf 4 = 0 ∧ (neededAddrs exS.links [3, 1, 4, 4, 5, 6]).count 4 = 1 ∧
+    ((step exS exReload).1.links.filter (·.addr == 4)).map exView = [((7, 4, 0, 0), (20000, false, false))] ∧
+    (neededAddrs exS.links [3, 1, 4, 4, 5, 6])[1]? = some 5 ∧
+    ((step exS exReload).1.links.filter (·.addr == 5)).length = 0 := by decide
 
 /-- **Exact addition.**  Every link of the post-state that is not a link of the pre-state is a freshly constructed
 registering record — the constructor of start-up, at the reload's clock — for a desired address that no link
@@ -117,6 +277,19 @@ theorem reload_added (s : Sys F) (now : Nat) (addrs : List Nat) (outs : List (Op
   · exact absurd h1 hnew
   · obtain ⟨h1, h2⟩ := mem_neededAddrs _ _ _ ha
     exact ⟨id, a, hid, h1, h2, rfl, rfl, rfl, rfl, rfl, rfl, rfl⟩
+
+-- non-vacuity of `reload_added`: links 7@4 and 8@6 of the post-state carry ids / addresses no link of the pre-state
+-- carries, and they are the constructor's record at the reload's clock 9: registering, not connected, empty queue
+-- and log, nothing in flight, grace window until 9 + STARTUP_GRACE_MS
+example :
+    ((step exS exReload).1.links.drop 2).map
+        (fun l => (l.core.connId, l.addr, l.core.connected, l.core.phase)) =
+      [(7, 4, false, .registering), (8, 6, false, .registering)] ∧
+    ((step exS exReload).1.links.drop 2).map
+        (fun l => (l.queue.isEmpty, l.core.log.isEmpty, l.core.inFlight, l.graceDeadline == 9 + Conn.STARTUP_GRACE_MS)) =
+      [(true, true, 0, true), (true, true, 0, true)] ∧
+    (∀ l ∈ exS.links, l.core.connId ≠ 7 ∧ l.core.connId ≠ 8 ∧ l.addr ≠ 4 ∧ l.addr ≠ 6) := by
+  refine ⟨?_, ?_, ?_⟩ <;> decide
 
 /-- **What a reload does not touch**: the registration manager (its index-keyed state is NOT remapped — the
 documented observation of C19 / C07 is reproduced, not repaired), the configuration, the client address, the
